@@ -66,10 +66,12 @@ impl super::DebugSession {
         if trimmed.is_empty() {
             return Ok(true);
         }
+        // a bare identifier is a variable name here, not an enum variant literal
         if let Ok(literal) = bs_expr::literal()
             .then_ignore(end())
             .parse(trimmed)
             .into_result()
+            && !matches!(literal, Literal::EnumVariant(_, None))
         {
             return Ok(Self::literal_truthy(&literal));
         }
@@ -146,6 +148,7 @@ impl super::DebugSession {
             .then_ignore(end())
             .parse(trimmed)
             .into_result()
+            && !matches!(literal, Literal::EnumVariant(_, None))
         {
             return Ok(literal.to_string());
         }
